@@ -12,11 +12,11 @@ import (
 type NodeKind int
 
 const (
-	KFileSrc NodeKind = iota // components.FileSource
-	KParamSrc                // components.ParamSource
-	KProc                    // scipipe.Process (shell command `op`, or Go function)
-	KMapToTags               // components.MapToTags
-	KStreamToSub             // components.StreamToSubStream
+	KFileSrc     NodeKind = iota // components.FileSource
+	KParamSrc                    // components.ParamSource
+	KProc                        // scipipe.Process (shell command `op`, or Go function)
+	KMapToTags                   // components.MapToTags
+	KStreamToSub                 // components.StreamToSubStream
 	KFileCombinator
 	KParamCombinator
 	KSelector
@@ -84,13 +84,13 @@ type Node struct {
 }
 
 type WF struct {
-	Name     string
-	Nodes    []Node
-	MaxTasks int
-	Bufsize  int // 0: SCIPIPE_BUFSIZE unset (default 128)
-	Sources  map[string]string
-	Dirs     []string // directories that exist before the run (absolute)
-	RunTo    []string
+	Name      string
+	Nodes     []Node
+	MaxTasks  int
+	Bufsize   int // 0: SCIPIPE_BUFSIZE unset (default 128)
+	Sources   map[string]string
+	Dirs      []string // directories that exist before the run (absolute)
+	RunTo     []string
 	RunToMode int // 0 names, 1 regex, 2 procs
 }
 
